@@ -57,6 +57,11 @@ def make_trigger(cfg, known=()):
         par = core.array([SymInt(p) if not isinstance(p, int) else p for p in pz], dtype=DType("int32"))
         mask = P.GET_TRIGGERS_FCTS[ai](n, par)
         mask = [int(mask[i]) if not isinstance(mask[i], SymInt) else E.concretize(mask[i].e) for i in range(n)]
+        if all((mk & (MIN_E | MAX_E)) == (MIN_E | MAX_E) for mk in mask):
+            # every bound of every variable is watched: B' = B, nothing to show (the masks are read from the real get_triggers_*
+            # on every run, so a mask that gets narrower is explored)
+            E.acc.count("full-mask")
+            return
         lo, hi = _box(E, n, "", B)
         lo2, hi2 = _box(E, n, "b", B)
         E.solver.add(contract(cfg, lo, hi, pz), contract(cfg, lo2, hi2, pz))
